@@ -31,7 +31,7 @@ pub struct MT112 {
 
     /// Drawer bank (Field 52)
     #[serde(flatten, skip_serializing_if = "Option::is_none")]
-    pub field_52: Option<Field52OrderingInstitution>,
+    pub field_52: Option<Field52DrawerBank>,
 
     /// Payee (Field 59)
     #[serde(rename = "59", skip_serializing_if = "Option::is_none")]
@@ -56,7 +56,7 @@ impl MT112 {
         let field_32 = parser.parse_variant_field::<Field32AB>("32")?;
 
         // Parse optional fields
-        let field_52 = parser.parse_optional_variant_field::<Field52OrderingInstitution>("52")?;
+        let field_52 = parser.parse_optional_variant_field::<Field52DrawerBank>("52")?;
         let field_59 = parser.parse_optional_field::<Field59NoOption>("59")?;
 
         // Parse mandatory field 76
